@@ -690,6 +690,13 @@ func (s *Storage) ApplyClientFiltering(id string, addr netip.Addr, setts *filter
 		c, ok = s.index.findByIP(addr)
 	}
 
+	if !ok && addr.Is4In6() {
+		// It is the IPv4 host, only its address has come in the IPv4-mapped
+		// form, for example from a dual-stack reverse proxy.
+		addr = addr.Unmap()
+		c, ok = s.index.findByIP(addr)
+	}
+
 	if !ok {
 		foundMAC := s.dhcp.MACByIP(addr)
 		if foundMAC != nil {
